@@ -1760,6 +1760,61 @@ Proof.
 Qed.
 
 (* ------------------------------------------------------------------ *)
+(** * The line-table variant of parse_attribute (src/read/line.rs) *)
+
+(* forms on which the line-table reader and the DIE reader agree *)
+Definition line_forms : list form :=
+  [F_block1; F_block2; F_block4; F_block; F_data1; F_data2; F_data4; F_data8; F_udata; F_sdata; F_flag;
+   F_sec_offset; F_string; F_strp; F_strp_sup; F_GNU_strp_alt; F_line_strp; F_strx; F_GNU_str_index;
+   F_strx1; F_strx2; F_strx3; F_strx4].
+Definition line_codes : list N := map form_code (F_data16 :: line_forms).
+
+(* same value and same rest as the DIE reader gives an attribute without a name *)
+Lemma line_parse_is_die_parse dbg e f bs : In f line_forms ->
+  line_parse_attribute dbg e (form_code f) bs = parse_attribute dbg e (mkSpec 0 (form_code f) 0) bs.
+Proof.
+  intros H. unfold parse_attribute. cbn [at_form].
+  rewrite parse_form_direct by (intros C; apply form_code_indirect in C; subst f; cbn in H; intuition discriminate).
+  unfold line_forms in H. cbn [In] in H.
+  repeat (destruct H as [<-|H]; [try reflexivity|]); try contradiction.
+  - unfold line_parse_attribute, parse_direct. cbn [form_code N.eqb Pos.eqb orb at_name].
+    unfold_forms. cbn [N.eqb Pos.eqb orb].
+    replace (allow_section_offset 0 (version e)) with false by reflexivity.
+    rewrite andb_false_r. reflexivity.
+  - unfold line_parse_attribute, parse_direct. cbn [form_code N.eqb Pos.eqb orb at_name].
+    unfold_forms. cbn [N.eqb Pos.eqb orb].
+    replace (allow_section_offset 0 (version e)) with false by reflexivity.
+    rewrite andb_false_r. reflexivity.
+Qed.
+
+(* DW_FORM_data16 is handed out as the 16 bytes themselves *)
+Lemma line_parse_data16 dbg e bs :
+  line_parse_attribute dbg e (form_code F_data16) bs = let* (b, r) := split_n 16 bs in Ok (VBlock b, r).
+Proof. reflexivity. Qed.
+
+Lemma line_parse_other dbg e c bs : existsb (N.eqb c) line_codes = false ->
+  line_parse_attribute dbg e c bs = Err EUnknownForm.
+Proof.
+  intros H. unfold line_codes, line_forms in H. cbn [map form_code existsb] in H.
+  unfold line_parse_attribute. unfold_forms.
+  repeat (apply orb_false_iff in H; let H1 := fresh in destruct H as [H1 H]; rewrite ?H1).
+  reflexivity.
+Qed.
+
+Lemma line_parse_res dbg e c bs :
+  line_parse_attribute dbg e c bs <> Panic /\ line_parse_attribute dbg e c bs <> OutOfFuel.
+Proof.
+  destruct (existsb (N.eqb c) line_codes) eqn:E.
+  - apply existsb_exists in E. destruct E as (k & Hin & Hk). apply N.eqb_eq in Hk. subst k.
+    unfold line_codes in Hin. apply in_map_iff in Hin. destruct Hin as (f & <- & Hf).
+    destruct Hf as [<-|Hf].
+    + rewrite line_parse_data16. destruct (split_n_res bs 16) as [H1 H2].
+      destruct (split_n 16 bs) as [[? ?]| | |]; cbn [bind]; split; congruence.
+    + rewrite line_parse_is_die_parse by assumption. apply parse_attribute_res.
+  - rewrite line_parse_other by assumption. split; discriminate.
+Qed.
+
+(* ------------------------------------------------------------------ *)
 (** * Packaged statements for Properties/C03.v *)
 
 Lemma udata_sdata v : value_in_range v ->
